@@ -70,6 +70,8 @@ def _groupby(iterable, key=None):
     return [(k, list(g)) for k, g in itertools.groupby(list(iterable), key)]      # runs of CONSECUTIVE equal keys, groups materialised
 
 
+import math as _math
+PURE_FUNCS.update({'np.floor': _math.floor, 'numpy.floor': _math.floor, 'math.floor': _math.floor, 'np.ceil': _math.ceil, 'numpy.ceil': _math.ceil, 'math.ceil': _math.ceil})
 import operator as _operator
 import heapq as _heapq
 PURE_FUNCS.update({'heapq.nsmallest': _heapq.nsmallest, 'heapq.nlargest': _heapq.nlargest, 'nsmallest': _heapq.nsmallest, 'nlargest': _heapq.nlargest})
@@ -108,6 +110,42 @@ class ExternalRef:
     """a function of the outside world held in a variable (`opener = gzip.open`): calls go to the rule's call hook under that name"""
     def __init__(self, name):
         self.name = name
+
+
+class LocalClass:
+    """a class of the analysed code whose instances the interpreter builds itself (small value objects / helper classes): `scope` is what its methods see as
+    globals, `bases` the LocalClass objects of its base classes"""
+    def __init__(self, cdef, scope, bases=()):
+        self.cdef, self.scope, self.bases = cdef, scope, tuple(bases)
+        self.consts = {}
+
+    def method(self, name):
+        for st in self.cdef.body:
+            if isinstance(st, ast.FunctionDef) and st.name == name:
+                return st, self
+        for b in self.bases:
+            r = b.method(name)
+            if r is not None:
+                return r
+        return None
+
+    def class_attr(self, name, ev):
+        for st in self.cdef.body:
+            if isinstance(st, ast.Assign) and any(isinstance(t, ast.Name) and t.id == name for t in st.targets):
+                return True, ev.ev(st.value, dict(self.scope))
+        for b in self.bases:
+            ok, v = b.class_attr(name, ev)
+            if ok:
+                return ok, v
+        return False, None
+
+
+class Instance:
+    def __init__(self, cls):
+        self.cls, self.attrs = cls, {}
+
+    def __repr__(self):
+        return f'<{self.cls.cdef.name} {self.attrs}>'
 
 
 class LocalFn:
@@ -156,6 +194,17 @@ class Evaluator:
             d = dotted(e)
             if d in STD_CONSTS:
                 return STD_CONSTS[d]
+            if isinstance(e.value, ast.Name) and isinstance(env.get(e.value.id), Instance):
+                inst = env[e.value.id]
+                if e.attr in inst.attrs:
+                    return inst.attrs[e.attr]
+                m = inst.cls.method(e.attr)
+                if m is not None:
+                    return LocalFn(m[0], dict(m[1].scope), bound=inst)
+                ok, v = inst.cls.class_attr(e.attr, self)
+                if ok:
+                    return v
+                raise Raised('AttributeError', e.attr)
             if d and d in env:
                 v = env[d]
                 if v is TOP:
@@ -306,6 +355,8 @@ class Evaluator:
                 raise Raised('ValueError', 'unpack')
             for t, v in zip(target.elts, vals):
                 self.bind(t, v, env)
+        elif isinstance(target, ast.Attribute) and isinstance(target.value, ast.Name) and isinstance(env.get(target.value.id), Instance):
+            env[target.value.id].attrs[target.attr] = value
         elif isinstance(target, ast.Attribute) and dotted(target):
             env[dotted(target)] = value
         elif isinstance(target, ast.Subscript):
@@ -342,6 +393,39 @@ class Evaluator:
             if r is not NotImplemented:
                 return r
             raise Unfoldable(f'call {ref.name}')
+        if isinstance(e.func, ast.Name) and isinstance(env.get(e.func.id), LocalClass):
+            cls = env[e.func.id]
+            inst = Instance(cls)
+            init = cls.method('__init__')
+            self.budget -= 5
+            if init is not None:
+                sc = dict(init[1].scope)
+                sc['__class__'] = init[1]
+                run_function(init[0], [inst] + args, kwargs, env=sc, budget=max(0, self.budget), call_hook=self.call_hook)
+            return inst
+        if isinstance(e.func, ast.Attribute) and isinstance(e.func.value, ast.Call) and dotted(e.func.value.func) == 'super' and isinstance(env.get('__class__'), LocalClass) \
+                and isinstance(env.get('self'), Instance):
+            for b in env['__class__'].bases:
+                m = b.method(e.func.attr)
+                if m is not None:
+                    sc = dict(m[1].scope)
+                    sc['__class__'] = m[1]
+                    return run_function(m[0], [env['self']] + args, kwargs, env=sc, budget=max(0, self.budget), call_hook=self.call_hook)
+            if e.func.attr == '__init__':
+                return None
+            raise Unfoldable(f'super().{e.func.attr}')
+        if isinstance(e.func, ast.Attribute) and isinstance(e.func.value, ast.Name) and isinstance(env.get(e.func.value.id), Instance):
+            inst = env[e.func.value.id]
+            m = inst.cls.method(e.func.attr)
+            if m is not None:
+                self.budget -= 5
+                static = any((dotted(x) or '') == 'staticmethod' for x in m[0].decorator_list)
+                sc = dict(m[1].scope)
+                sc['__class__'] = m[1]
+                return run_function(m[0], ([] if static else [inst]) + args, kwargs, env=sc, budget=max(0, self.budget), call_hook=self.call_hook)
+            if e.func.attr in inst.attrs and isinstance(inst.attrs[e.func.attr], LocalFn):
+                lf = inst.attrs[e.func.attr]
+                return run_function(lf.fdef, ([lf.bound] if lf.bound is not None else []) + args, kwargs, env=lf.scope, budget=max(0, self.budget), call_hook=self.call_hook)
         if isinstance(e.func, ast.Attribute) and d and isinstance(env.get(d), LocalFn):
             # a method given as a bound local function under its dotted name (`self.get_span`): read-only use
             lf = env[d]
@@ -609,3 +693,46 @@ def _walk_own(node):
         for ch in ast.iter_child_nodes(n):
             if not isinstance(ch, (ast.FunctionDef, ast.AsyncFunctionDef, ast.ClassDef, ast.Lambda)):
                 stack.append(ch)
+
+
+def module_scope(ix, relpath, _depth=0, _seen=None):
+    """what the functions of a module see as globals, for the interpreter: its constants, its functions (LocalFn), its classes (LocalClass, bases resolved inside the
+    package) and the like-named objects it imports from other modules of the package"""
+    _seen = _seen if _seen is not None else {}
+    if relpath in _seen:
+        return _seen[relpath]
+    env = {}
+    _seen[relpath] = env
+    mod = ix.module(relpath)
+    ev = Evaluator(env)
+    for s in mod.tree.body:
+        if isinstance(s, ast.ImportFrom) and s.module and _depth < 3:
+            base = s.module.replace('.', '/')
+            if s.level:
+                parts = relpath.split('/')[:-s.level]
+                base = '/'.join(parts + ([s.module.replace('.', '/')] if s.module else []))
+            rel = base + '.py'
+            if not ix.exists(rel):
+                rel = base + '/__init__.py'
+                if not ix.exists(rel):
+                    continue
+            try:
+                other = module_scope(ix, rel, _depth + 1, _seen)
+            except Exception:
+                continue
+            for a in s.names:
+                if a.name == '*':
+                    env.update({k: v for k, v in other.items() if not k.startswith('_')})
+                elif a.name in other:
+                    env[a.asname or a.name] = other[a.name]
+        elif isinstance(s, ast.Assign) and len(s.targets) == 1 and isinstance(s.targets[0], ast.Name):
+            try:
+                env[s.targets[0].id] = ev.ev(s.value)
+            except Exception:
+                pass
+        elif isinstance(s, ast.FunctionDef):
+            env[s.name] = LocalFn(s, env)
+        elif isinstance(s, ast.ClassDef):
+            bases = [env[b.id] for b in s.bases if isinstance(b, ast.Name) and isinstance(env.get(b.id), LocalClass)]
+            env[s.name] = LocalClass(s, env, bases)
+    return env
